@@ -5,6 +5,7 @@ import (
 	"encoding/json"
 	"fmt"
 	"math"
+	"math/big"
 	"os"
 	"os/exec"
 	"runtime/debug"
@@ -52,6 +53,31 @@ func groupBounds(s *sink, g *hx.Gen) {
 			vals = append(vals, hx.F64(float64(n)), hx.F32(float32(n)))
 			if t.Units != nil && n >= 0 {
 				vals = append(vals, hx.Str(g.FormatUnits(t.Units, n)))
+			}
+		}
+		if t.Units != nil {
+			// unit strings whose count x multiplier lies around 2^63 and 2^64 (a product that wraps past
+			// 2^64 is non-negative again), and zero-padded counts (decimal, never octal)
+			names := [][2]string{{t.Units.Base[0], "1"}}
+			for _, m := range t.Units.Mults {
+				names = append(names, [2]string{m.Names[0], strconv.FormatInt(m.M, 10)})
+			}
+			for _, nm := range names {
+				mult, _ := new(big.Int).SetString(nm[1], 10)
+				if mult.Sign() <= 0 {
+					continue
+				}
+				for _, e := range []uint{63, 64, 65} {
+					lim := new(big.Int).Lsh(big.NewInt(1), e)
+					q := new(big.Int).Div(lim, mult)
+					for _, d := range []int64{-1, 0, 1, 2} {
+						c := new(big.Int).Add(q, big.NewInt(d))
+						if c.Sign() >= 0 {
+							vals = append(vals, hx.Str(c.String()+nm[0]))
+						}
+					}
+				}
+				vals = append(vals, hx.Str("010"+nm[0]), hx.Str("0019"+nm[0]), hx.Str("00"+nm[0]))
 			}
 		}
 		vals = append(vals, hx.Uint("uint64", math.MaxUint64), hx.Uint("uint64", 1<<63), hx.F64(9.223372036854775807e18),
@@ -225,6 +251,23 @@ func groupObjects(s *sink, g *hx.Gen) {
 		}
 		chain(s, t, m, "objects:subset")
 	}
+	// an explicit null supplied for one property (the others valid): no type accepts nil, and a
+	// supplied value is never replaced by a default
+	for i := range t.Props {
+		m := hx.StrAny()
+		if g.R.Intn(2) == 0 {
+			m.MK = "any"
+		}
+		for j, np := range t.Props {
+			switch {
+			case j == i:
+				m.M = append(m.M, [2]*hx.Val{hx.Str(np.Name), hx.Nil()})
+			case np.P.Required || g.R.Intn(2) == 0:
+				m.M = append(m.M, [2]*hx.Val{hx.Str(np.Name), g.Value(np.P.Ty, hx.Env{}, 2)})
+			}
+		}
+		chain(s, t, m, "objects:null")
+	}
 	// undeclared key, non-string key, shorthand
 	extra := hx.AnyAny([2]*hx.Val{hx.Str("zz"), hx.Int("int64", 1)})
 	chain(s, t, extra, "objects:undeclared")
@@ -317,6 +360,30 @@ func stripMarkers(p []string) []string {
 // must not change (C12).
 func groupHistory(s *sink, g *hx.Gen) {
 	t := g.Schema(0, nil)
+	// every fourth history: a number with units, fed empty / blank / malformed / multi-unit strings in
+	// random order (lazily built parser state must not depend on which string came first)
+	var unitPool []*hx.Val
+	if g.R.Intn(4) == 0 {
+		u := g.GenUnits()
+		for u == nil || len(u.Mults) < 2 {
+			u = g.GenUnits()
+		}
+		t = &hx.Ty{T: []string{"int", "float"}[g.R.Intn(2)], Units: u}
+		unitPool = []*hx.Val{hx.Str(""), hx.Str(" "), hx.Str("\t\n"), hx.Str("x"), hx.Str("1" + u.Mults[0].Names[0] + "1" + u.Mults[0].Names[0])}
+		for i := 0; i < 6; i++ {
+			var n int64 = 1
+			for _, m := range u.Mults {
+				n += m.M * int64(1+g.R.Intn(3))
+			}
+			unitPool = append(unitPool, hx.Str(g.FormatUnits(u, n+int64(g.R.Intn(50)))))
+		}
+		if g.R.Intn(2) == 0 {
+			t = &hx.Ty{T: "obj", ID: "H", Props: []hx.NamedProp{{Name: "t", P: &hx.Prop{Ty: t, Required: true}}, {Name: "z", P: &hx.Prop{Ty: &hx.Ty{T: "bool"}}}}}
+			for i, v := range unitPool {
+				unitPool[i] = hx.StrAny([2]*hx.Val{hx.Str("t"), v})
+			}
+		}
+	}
 	used := t.Build()
 	describe := func() string {
 		r := hx.Guard(func() hx.Result {
@@ -345,9 +412,15 @@ func groupHistory(s *sink, g *hx.Gen) {
 			arg = natives[g.R.Intn(len(natives))]
 			v = hx.Enc(arg)
 		} else {
-			if g.R.Intn(4) == 0 {
+			switch {
+			case unitPool != nil && (i < 2 || g.R.Intn(3) > 0):
+				v = unitPool[g.R.Intn(len(unitPool))]
+				if i == 0 && g.R.Intn(2) == 0 {
+					v = unitPool[g.R.Intn(3)] // empty or blank first
+				}
+			case g.R.Intn(4) == 0:
 				v = g.RandomVal(0)
-			} else {
+			default:
 				v = g.Value(t, hx.Env{}, 0)
 			}
 			arg = v.ToGo()
@@ -486,7 +559,8 @@ func groupDupKeys(s *sink, g *hx.Gen) {
 	ns := strconv.FormatInt(n, 10)
 	var t *hx.Ty
 	var pairs [][2]*hx.Val
-	switch g.R.Intn(4) {
+	strKeyed := false
+	switch g.R.Intn(6) {
 	case 0: // integer-keyed map: canonical int64 plus a string / another integer kind
 		t = &hx.Ty{T: "map", K: &hx.Ty{T: "int"}, V: &hx.Ty{T: "int"}}
 		pairs = [][2]*hx.Val{{hx.Int("int64", n), val()}, {hx.Str(ns), val()}}
@@ -499,16 +573,39 @@ func groupDupKeys(s *sink, g *hx.Gen) {
 	case 2: // two non-canonical keys
 		t = &hx.Ty{T: "map", K: &hx.Ty{T: "int"}, V: &hx.Ty{T: "int"}}
 		pairs = [][2]*hx.Val{{hx.Uint("uint64", uint64(n)), val()}, {hx.Str(ns), val()}}
-	default: // the any schema converts integer kinds to int64
+	case 3: // the any schema converts integer kinds to int64
 		t = &hx.Ty{T: "any"}
 		pairs = [][2]*hx.Val{{hx.Int("int64", n), val()}, {hx.Uint("uint64", uint64(n)), val()}}
+	case 4: // a statically typed raw map (map[string]any as encoding/json produces): distinct strings, one integer
+		t = &hx.Ty{T: "map", K: &hx.Ty{T: "int"}, V: &hx.Ty{T: "int"}}
+		alt := []string{"0" + ns, "+" + ns, "00" + ns}[g.R.Intn(3)]
+		pairs = [][2]*hx.Val{{hx.Str(ns), val()}, {hx.Str(alt), val()}}
+		strKeyed = true
+	default: // the same through unit strings: "60s" and "1m", "1kB" and "1024B"
+		u := g.GenUnits()
+		for u == nil || len(u.Mults) == 0 {
+			u = g.GenUnits()
+		}
+		t = &hx.Ty{T: "map", K: &hx.Ty{T: "int", Units: u}, V: &hx.Ty{T: "int"}}
+		mult := u.Mults[g.R.Intn(len(u.Mults))]
+		k := n + 1
+		pairs = [][2]*hx.Val{{hx.Str(strconv.FormatInt(k, 10) + mult.Names[0]), val()},
+			{hx.Str(strconv.FormatInt(k*mult.M, 10) + u.Base[0]), val()}}
+		strKeyed = true
 	}
 	// a few unrelated entries around them, in random order
 	for i := 0; i < g.R.Intn(3); i++ {
-		pairs = append(pairs, [2]*hx.Val{hx.Int("int64", 100+int64(i)), val()})
+		if strKeyed {
+			pairs = append(pairs, [2]*hx.Val{hx.Str(strconv.Itoa(100 + i)), val()})
+		} else {
+			pairs = append(pairs, [2]*hx.Val{hx.Int("int64", 100+int64(i)), val()})
+		}
 	}
 	g.R.Shuffle(len(pairs), func(i, j int) { pairs[i], pairs[j] = pairs[j], pairs[i] })
 	m := hx.AnyAny(pairs...)
+	if strKeyed {
+		m = hx.StrAny(pairs...)
+	}
 	// wrap it at a random position so that nested maps are covered too
 	switch g.R.Intn(3) {
 	case 1:
